@@ -30,12 +30,17 @@ pub fn eval_layer(coefs: &[Felt], log: u64) -> Vec<Felt> {
 /// Commit phase. `coefs`: polynomial in u = x/3 of the input layer; `transcript` is advanced exactly as the
 /// verifier's fri_commit will do. The last layer is truncated / zero-padded to 2^log_last coefficients.
 pub fn commit(tr: &mut Transcript, coefs: &[Felt], log_n: u64, steps: &[u64], log_last: u64, nvf: u64) -> FriProof {
+    commit_ex(tr, coefs, log_n, steps, log_last, nvf, None)
+}
+/// `garbage_from = Some(i)`: inner layers with index >= i are committed as random tables instead of folds.
+pub fn commit_ex(tr: &mut Transcript, coefs: &[Felt], log_n: u64, steps: &[u64], log_last: u64, nvf: u64, garbage_from: Option<usize>) -> FriProof {
     let n_layers = steps.len();
+    let mut grng = Rng(0x6A4B ^ log_n);
     let mut cur: Vec<Felt> = coefs.to_vec();
     let mut log_m = log_n;
     let (mut layers, mut trees, mut roots, mut inner_cfg, mut evp) = (Vec::new(), Vec::new(), Vec::new(), Vec::new(), Vec::new());
     for i in 0..n_layers - 1 {
-        let ev = eval_layer(&cur, log_m);
+        let ev = if garbage_from.map(|g| i >= g).unwrap_or(false) { (0..(1u64 << log_m)).map(|_| grng.felt()).collect() } else { eval_layer(&cur, log_m) };
         let k = steps[i + 1];
         let nc = 1usize << k;
         let height = log_m - k;
